@@ -180,8 +180,50 @@ def one_batch_routine(ctx, P):
               any('NormalizedReader' in u for u in users) and any(u.endswith('normalize_lines::normalize_lines') or u.endswith('::normalize_lines') for u in users), table=users)
 
 
+def check_reader_rules(ctx, P):
+    """CrLfCheckReader (the Utf8-mode guard of the builder) carries `last_was_cr` across reads.  Necessary for schedule independence:
+    every successful read that delivered data refreshes the carry (no Ok exit with data is reachable around the store), and the only
+    exit that leaves it alone is the zero-length one."""
+    b = ctx.body('<packet::literal_data::CrLfCheckReader<R> as std::io::Read>::read')
+    if b is None:
+        return
+    stores = [i for i, k, s in b.stmts(lambda s: s['d']['pr'] and s['d']['pr'][-1].endswith('.last_was_cr'))]
+    oks = ok_exit_blocks(b)
+    zero = [i for i in oks if any(s['d']['l'] == 0 and s['r']['k'] == 'agg' and s['r'].get('v') == 'Ok' and s['r']['o'] and 'k' in s['r']['o'][0] and s['r']['o'][0]['k'].get('v') == 0
+                                  for s in b.blocks[i]['s'])]
+    data_oks = [i for i in oks if i not in zero]
+    ok, wit = must_pass(b, data_oks, stores) if (stores and data_oks) else (False, None)
+    ctx.check(P + ':check-reader:carry-refreshed-on-every-read', 'R-dom', 'every CrLfCheckReader::read that delivers data stores last_was_cr before returning (the carry never survives a read unchanged by accident)',
+              ok, function=b.path, stores=[site(b, i) for i in stores], witness=fmt_path(b, wit) if wit else None)
+    # the stored value is a test of the LAST octet delivered (index len - 1), not of a scan position
+    good = False
+    for i, k, s in b.stmts(lambda s: s['d']['pr'] and s['d']['pr'][-1].endswith('.last_was_cr')):
+        r = s['r']
+        if r['k'] == 'bin' and r['op'] == 'Eq' and any('k' in o and o['k'].get('v') == 13 for o in r['o']):
+            other = [o for o in r['o'] if 'k' not in o]
+            og = b.operand_origins(other[0]) if other else set()
+            if has_origin(og, r'op:SubWithOverflow$|op:Sub$') and has_origin(og, r'const:1:usize$') and has_origin(og, r'call:std::io::Read::read$') and not has_origin(og, r'op:AddWithOverflow$|op:Add$'):
+                good = True
+    ctx.check(P + ':check-reader:carry-is-last-octet-cr', 'R-table', 'the carry is the comparison of the last delivered octet (index read - 1, not a scan position) with CR (13)', good, function=b.path)
+
+
+def in_memory_canonical(ctx, P):
+    """`LiteralData::from_str` is the in-memory text constructor: on every path the body it stores went through normalize_lines
+    (no fast path that decides canonicity by itself — a second canonicaliser is a second opinion)."""
+    b = ctx.body('packet::literal_data::LiteralData::from_str')
+    if b is None:
+        return
+    cons = sorted(set(i for i, k, s in b.constructs(r'packet::literal_data::LiteralData$')))
+    norm = [i for i, t in b.calls(r'normalize_lines::normalize_lines$')]
+    ok, wit = must_pass(b, cons, norm) if (cons and norm) else (False, None)
+    ctx.check(P + ':batch:from_str-always-normalises', 'R-dom', 'LiteralData::from_str builds its body through normalize_lines on every path',
+              ok, function=b.path, witness=fmt_path(b, wit) if wit else None)
+
+
 def run(ctx):
     P = 'C14'
+    check_reader_rules(ctx, P)
+    in_memory_canonical(ctx, P)
     hasher_rules(ctx, P)
     reader_rules(ctx, P)
     one_batch_routine(ctx, P)
